@@ -141,6 +141,7 @@ fn vary(kind: Kind, s: &str, vs: &[gen::Variant]) -> String {
 				gen::Variant::PortLeadingZero => format!("0{cur}"),
 				_ => cur.clone(),
 			},
+			Kind::Host if matches!(v, gen::Variant::HostCase) => cur.chars().map(|c| if c.is_ascii_lowercase() { c.to_ascii_uppercase() } else { c.to_ascii_lowercase() }).collect(),
 			_ => token_variant(&cur, v),
 		};
 	}
